@@ -8,6 +8,7 @@ use crate::frame::{
     FrameType, GetFrameType,
     verif_frames_c05::{
         any_cid, any_nat_type, any_socket_addr, any_varint, cid_eq, done, encode_exact, model_be_varint, skip_type,
+        stub_slice_index_fail,
     },
 };
 
@@ -27,6 +28,7 @@ fn body() {
 
 /// C05 PUNCH_HELLO, every field any varint < 2^62 (quick tier: be_varint replaced by its verified model).
 #[kani::proof]
+#[kani::stub(core::slice::index::slice_index_fail, stub_slice_index_fail)]
 #[kani::unwind(10)]
 #[kani::stub(crate::varint::be_varint, model_be_varint)]
 fn c05_punch_hello_roundtrip() {
@@ -35,6 +37,7 @@ fn c05_punch_hello_roundtrip() {
 
 /// C05 PUNCH_HELLO, every field any varint < 2^62 (thorough tier: the real nom be_varint).
 #[kani::proof]
+#[kani::stub(core::slice::index::slice_index_fail, stub_slice_index_fail)]
 #[kani::unwind(10)]
 fn c05_punch_hello_roundtrip_real() {
     body()
